@@ -40,7 +40,7 @@ def literal_cycles(ctx):
                 out = y
             ctx.case(("literal-cycle", shape, with_output))
             try:
-                uberjob.run(p, output=out if with_output else [out, 1], progress=None, max_workers=2)
+                core.call_watched(lambda: uberjob.run(p, output=out if with_output else [out, 1], progress=None, max_workers=2))
                 ctx.fail("cycle:literal-not-rejected", "a dependency cycle through a literal (%s) was run without an error; calls executed: %d" % (shape, len(calls)),
                          {"shape": shape})
             except nx.HasACycle:
@@ -305,7 +305,7 @@ def transform_cycles(ctx):
                 return pl, out
             ctx.case(("c07-transform-cycle", with_registry, workers))
             try:
-                res = uberjob.run(plan, output=c, registry=reg if with_registry else None, transform_physical=tp, max_workers=workers, progress=None)
+                res = core.call_watched(lambda: uberjob.run(plan, output=c, registry=reg if with_registry else None, transform_physical=tp, max_workers=workers, progress=None))
                 oc = "returned %r" % (res,)
             except nx.HasACycle:
                 oc = "HasACycle"
@@ -372,7 +372,7 @@ def cycles(ctx):
     # engine level: cyclic graph -> HasACycle, before any callback
     for trial in range(ctx.n(40, 400)):
         fam, nodes, edges = engine_corr.gen_graph(rng, maxn=7)
-        if len(nodes) < 1:
+        if len(nodes) < 1 or core.HANGS[0] >= 4:     # (after a few hangs the point is made: do not spend a timeout on every further graph)
             continue
         kind = rng.choice(["self", "two", "back"])
         if kind == "self":
@@ -392,7 +392,7 @@ def cycles(ctx):
         ctx.case(("cyclic", tuple(nodes), tuple(edges)))
         ctx.count("cyclic_kind", kind)
         try:
-            rfg.run_function_on_graph(g, called.append, worker_count=2)
+            core.call_watched(lambda: rfg.run_function_on_graph(g, called.append, worker_count=2))
             ctx.fail("cycle:not-rejected", "cyclic graph was run without an error", {"nodes": nodes, "edges": edges})
         except nx.HasACycle:
             if called:
@@ -417,12 +417,13 @@ def cycles(ctx):
             self.log.append(("mtime", self.name))
             return dt.datetime(2020, 1, 1) if self.v is not None else None
 
-    for where in ("needed", "off-output", "through-source"):
+    for where in ("needed", "off-output", "through-source", "dependant-created-first"):
         for with_registry in (False, True):
             log, calls = [], []
             p = uberjob.Plan()
             r = uberjob.Registry()
             f = lambda *a: calls.append(a) or 1
+            early = p.call(f)           # created before everything else; in "dependant-created-first" it is made to depend on the cycle later
             src = r.source(p, Store(log, "src")) if with_registry else p.call(f)
             a = p.call(f, src)
             b = p.call(f, a)
@@ -431,6 +432,10 @@ def cycles(ctx):
             other2 = p.call(f, other)
             if where == "needed":
                 p.add_dependency(c, a)
+            elif where == "dependant-created-first":
+                p.add_dependency(c, a)
+                p.add_dependency(b, early)
+                c = p.call(f, c, early)
             elif where == "off-output":
                 p.add_dependency(other2, other)
             else:
@@ -440,7 +445,7 @@ def cycles(ctx):
             ctx.case(("plan-cycle", where, with_registry))
             before = set(threading.enumerate())
             try:
-                uberjob.run(p, output=c, registry=r if with_registry else None, progress=None, max_workers=2)
+                core.call_watched(lambda: uberjob.run(p, output=c, registry=r if with_registry else None, progress=None, max_workers=2))
                 if where != "off-output" or with_registry:
                     ctx.fail("cycle:plan-not-rejected", "plan with a cycle (%s) ran without error" % where, {"where": where, "registry": with_registry})
             except nx.HasACycle:
